@@ -8,10 +8,12 @@ CONSTANTS
   WinLock = TRUE
   Fault = "none"
   ReadPolicy = "eager"
+  StrictBackend = TRUE
+  DrainAfterDecode = TRUE
   Modes <- ModesAll
   Levels <- LevelsAll
   Bits <- BitsGrid
 
-INVARIANTS DictionariesEqual HeadDecodable ReadEqualsWrite InOrder NoInterleave NoDecodeFailure WindowIsSuffix NoWindowWithoutTakeover
+INVARIANTS NoReaderRefused DictionariesEqual HeadDecodable ReadEqualsWrite InOrder NoInterleave NoDecodeFailure WindowIsSuffix NoWindowWithoutTakeover
 CONSTRAINT GenPrint
 CHECK_DEADLOCK FALSE
